@@ -108,6 +108,9 @@ func (l *life) call(kind string, size int, probe, silent bool) *lifeCall {
 	return c
 }
 
+// mustServe records that the call has to return by itself (with any outcome).
+func (l *life) mustServe(c *lifeCall) { l.tr.Emit("MustServe", 0, c.tok) }
+
 func (l *life) endCtx(c *lifeCall) {
 	l.tr.Emit("CtxEnd", 0, c.tok, "cause", "canceled")
 	c.ctx.End("canceled")
@@ -366,6 +369,63 @@ func scenStreamOutrunsCall(tr *vtrace.Tracer, kind string) error {
 	return nil
 }
 
+// C09/C18: TLC's counterexample to NoResidue (SenderReconnectStrandsPending):
+// a request is pending on a stream; the stream is cancelled (another call's
+// context ends while being written) while the receiver is between two reads;
+// the sender re-creates the stream for the next request.  The pending request
+// must be failed, not left waiting for ever.
+func scenStreamReplaced(tr *vtrace.Tracer, kind string) error {
+	switch kind {
+	case "Ucast", "UcastNsw", "Mcast", "McastNsw":
+		kind = "Rpc" // a one-way call is never pending for a reply
+	}
+	l, err := newLife(tr, EnvOpts{Nodes: 1})
+	if err != nil {
+		return err
+	}
+	defer l.finish()
+	from := tr.Len()
+	a := l.call(kind, 1, false, true) // pending: its handler never answers
+	l.mustServe(a)
+	if !l.awaitEv(from, SyncTimeout, "HStart", 1) {
+		return fmt.Errorf("handler of the pending call did not start")
+	}
+	// park the receiver between two reads
+	gr := l.gate("RcvLoopEnd", 1)
+	c := l.call("Rpc", 1, false, false)
+	if !gr.Arrived(SyncTimeout) {
+		gr.Open()
+		return fmt.Errorf("receiver did not reach the end of its loop")
+	}
+	l.wait(c, SyncTimeout)
+	// cancel the stream: a context ends while its request is being written
+	gs := l.gate("SendWait", 1)
+	d := l.call("Rpc", 1, false, false)
+	if !gs.Arrived(SyncTimeout) {
+		gr.Open()
+		gs.Open()
+		return fmt.Errorf("sender did not reach SendWait")
+	}
+	pos := tr.Len()
+	l.endCtx(d)
+	tr.Await(pos, SyncTimeout, func(e vtrace.Event) bool { return e.Ev == "WatcherCancel" })
+	gs.Open()
+	l.wait(d, SyncTimeout)
+	// the next requests make the sender notice the broken stream and re-create it
+	for i := 0; i < 3; i++ {
+		x := l.call("Rpc", 1, false, false)
+		time.Sleep(20 * time.Millisecond)
+		_ = x
+	}
+	time.Sleep(50 * time.Millisecond)
+	gr.Open() // the receiver goes on: it finds a new stream
+	l.wait(a, QuietT)
+	p := l.call("Rpc", 1, true, false)
+	l.wait(p, QuietT)
+	l.quiescent()
+	return nil
+}
+
 // C10: a node crashes and comes back; the next call's reply must not wait for
 // the receiver's back-off timer (configured far beyond the quiescence period).
 func scenRestart(tr *vtrace.Tracer, kind string) error {
@@ -538,6 +598,7 @@ var LifeScenarios = map[string][]LifeScenario{
 	"C09": {
 		{Name: "stale-broken-read", Run: scenStaleBrokenRead},
 		{Name: "stream-outruns-call", Kind: "CorrStream", Run: scenStreamOutrunsCall},
+		{Name: "stream-replaced", Run: scenStreamReplaced},
 		{Name: "ctx-while-written", Run: scenCtxWhileWritten},
 	},
 	"C10": {
